@@ -250,9 +250,14 @@ inductive Outcome (α : Type) where
   | outOfFuel
   deriving Repr
 
+/-- "Quick short-circuit when comparing equal well-known types" -/
+def sameWk : TypeId → TypeId → Bool
+  | .wk x, .wk y => decide (x = y)
+  | _, _ => false
+
 /-- `compare_types_internal`: shallow status (`true` = Pass) and the child checks required. -/
 def shallow (env : Env) (B C : Schema) (st : Settings) (b c : TypeId) : Option (Bool × List (TypeId × TypeId)) :=
-  if (match b, c with | .wk x, .wk y => decide (x = y) | _, _ => false) then some (true, [])
+  if sameWk b c then some (true, [])
   else
     match resolveData env B b, resolveData env C c with
     | some bd, some cd =>
